@@ -167,3 +167,111 @@ Theorem C17_zoned_naive_local_refuted :
   dz_duration_trunc z_witness d_witness = Val (inr TimestampExceedsLimit).
 Proof. exact dz_orig_refuted. Qed.
 Print Assumptions C17_zoned_naive_local_refuted.
+
+(** ** sub-second digits.  [sub_span N] = 10^(9-min(9,N)) ns is the judge's span; the code's lookup
+    table [span_for_digits] (Gen/Round.v, regenerated from the source) agrees with it for every
+    digit count, in particular for all of u16 *)
+Theorem C17_span_for_digits : forall digits, 0 <= digits ->
+  span_for_digits digits = V.Judge.C17.sub_span digits /\
+  0 < V.Judge.C17.sub_span digits /\ (V.Judge.C17.sub_span digits | 1000000000).
+Proof. exact (fun d H => conj (span_for_digits_spec d H) (sub_span_divides d H)). Qed.
+Print Assumptions C17_span_for_digits.
+Theorem C17_span_digits_ge9 : forall digits, 9 <= digits ->
+  V.Judge.C17.sub_span digits = 1 /\ forall s, m_trunc s 1 = s /\ m_round s 1 = s /\ m_up s 1 = s.
+Proof. exact (fun d H => conj (sub_span_ge9 d H) m_fix_span1). Qed.
+Print Assumptions C17_span_digits_ge9.
+
+(* NaiveTime, outright, leap-second fractions included: exactly the value the judge computes
+   (rounding within the second, carry into the next second wrapping at midnight, a leap second is a
+   second of its own); never traps; the result is a well-formed time; >= 9 digits: unchanged *)
+Theorem C17_time_round_subsecs : forall t digits, time_ok t -> 0 <= digits ->
+  round_subsecs time_ops t digits = Val (time_expected true digits t).
+Proof. exact time_round_subsecs_spec. Qed.
+Print Assumptions C17_time_round_subsecs.
+Theorem C17_time_trunc_subsecs : forall t digits, time_ok t -> 0 <= digits ->
+  trunc_subsecs time_ops t digits = Val (time_expected false digits t).
+Proof. exact time_trunc_subsecs_spec. Qed.
+Print Assumptions C17_time_trunc_subsecs.
+Theorem C17_time_subsecs_closed : forall round digits t, time_ok t -> 0 <= digits ->
+  time_ok (time_expected round digits t).
+Proof. exact time_expected_ok. Qed.
+Print Assumptions C17_time_subsecs_closed.
+Theorem C17_time_subsecs_ge9_unchanged : forall round digits t, time_ok t -> 9 <= digits ->
+  time_expected round digits t = t.
+Proof. exact time_digits_ge9. Qed.
+Print Assumptions C17_time_subsecs_ge9_unchanged.
+
+(* any carrier whose + / - TimeDelta are exact on [LO..HI] and whose nanosecond field is the stamp's
+   fraction (non-leap values): N-digit rounding / truncation IS rounding / truncation to the span
+   10^(9-min(9,N)) ns — carry into the next second included — and multiples are returned unchanged *)
+Theorem C17_subsec_round_generic_modulo_add_exact :
+  forall (T : Type) (ops : tl T) (stampT : T -> Z) (goodT : T -> Prop) (LO HI : Z),
+  (forall x, goodT x -> tl_nanosecond ops x = Val (stampT x mod 1000000000)) ->
+  (forall x d, goodT x -> valid d -> LO <= stampT x + ns d <= HI ->
+     exists r, tl_add ops x d = Val r /\ goodT r /\ stampT r = stampT x + ns d) ->
+  (forall x d, goodT x -> valid d -> LO <= stampT x - ns d <= HI ->
+     exists r, tl_sub ops x d = Val r /\ goodT r /\ stampT r = stampT x - ns d) ->
+  forall x digits, goodT x -> 0 <= digits ->
+  LO <= m_round (stampT x) (V.Judge.C17.sub_span digits) <= HI ->
+  exists r, round_subsecs ops x digits = Val r /\ goodT r /\
+            stampT r = m_round (stampT x) (V.Judge.C17.sub_span digits) /\
+            (stampT x mod V.Judge.C17.sub_span digits = 0 -> r = x).
+Proof. exact round_subsecs_spec. Qed.
+Print Assumptions C17_subsec_round_generic_modulo_add_exact.
+Theorem C17_subsec_trunc_generic_modulo_add_exact :
+  forall (T : Type) (ops : tl T) (stampT : T -> Z) (goodT : T -> Prop) (LO HI : Z),
+  (forall x, goodT x -> tl_nanosecond ops x = Val (stampT x mod 1000000000)) ->
+  (forall x d, goodT x -> valid d -> LO <= stampT x + ns d <= HI ->
+     exists r, tl_add ops x d = Val r /\ goodT r /\ stampT r = stampT x + ns d) ->
+  (forall x d, goodT x -> valid d -> LO <= stampT x - ns d <= HI ->
+     exists r, tl_sub ops x d = Val r /\ goodT r /\ stampT r = stampT x - ns d) ->
+  forall x digits, goodT x -> 0 <= digits ->
+  LO <= m_trunc (stampT x) (V.Judge.C17.sub_span digits) <= HI ->
+  exists r, trunc_subsecs ops x digits = Val r /\ goodT r /\
+            stampT r = m_trunc (stampT x) (V.Judge.C17.sub_span digits) /\
+            (stampT x mod V.Judge.C17.sub_span digits = 0 -> r = x).
+Proof. exact trunc_subsecs_spec. Qed.
+Print Assumptions C17_subsec_trunc_generic_modulo_add_exact.
+(* instances: NaiveDateTime and DateTime<FixedOffset> (links bundled as ndt_sub_links / dz_sub_links) *)
+Theorem C17_naive_round_subsecs_modulo_add_exact : forall stamp good LO HI, ndt_sub_links stamp good LO HI ->
+  forall a digits, good a -> 0 <= digits -> LO <= m_round (stamp a) (V.Judge.C17.sub_span digits) <= HI ->
+  exists r, round_subsecs ndt_ops a digits = Val r /\ subsec_post stamp good m_round a digits r.
+Proof. exact ndt_round_subsecs. Qed.
+Print Assumptions C17_naive_round_subsecs_modulo_add_exact.
+Theorem C17_naive_trunc_subsecs_modulo_add_exact : forall stamp good LO HI, ndt_sub_links stamp good LO HI ->
+  forall a digits, good a -> 0 <= digits -> LO <= m_trunc (stamp a) (V.Judge.C17.sub_span digits) <= HI ->
+  exists r, trunc_subsecs ndt_ops a digits = Val r /\ subsec_post stamp good m_trunc a digits r.
+Proof. exact ndt_trunc_subsecs. Qed.
+Print Assumptions C17_naive_trunc_subsecs_modulo_add_exact.
+Theorem C17_zoned_round_subsecs_modulo_add_exact : forall wall goodz LO HI, dz_sub_links wall goodz LO HI ->
+  forall z digits, goodz z -> 0 <= digits -> LO <= m_round (wall z) (V.Judge.C17.sub_span digits) <= HI ->
+  exists r, round_subsecs dz_ops z digits = Val r /\ subsec_post wall goodz m_round z digits r.
+Proof. exact dz_round_subsecs. Qed.
+Print Assumptions C17_zoned_round_subsecs_modulo_add_exact.
+Theorem C17_zoned_trunc_subsecs_modulo_add_exact : forall wall goodz LO HI, dz_sub_links wall goodz LO HI ->
+  forall z digits, goodz z -> 0 <= digits -> LO <= m_trunc (wall z) (V.Judge.C17.sub_span digits) <= HI ->
+  exists r, trunc_subsecs dz_ops z digits = Val r /\ subsec_post wall goodz m_trunc z digits r.
+Proof. exact dz_trunc_subsecs. Qed.
+Print Assumptions C17_zoned_trunc_subsecs_modulo_add_exact.
+
+(** ** the hypotheses are inhabited / the operations are not vacuous: the crate's own test values *)
+Example C17_examples :
+  rmap (enc_res enc_ndt) (ndt_duration_trunc (ex_ndt 2012 347 66149 999000000) (mk_td 300 0))
+    = Val (VTup (VInt 2012 :: VInt 347 :: VInt 66000 :: VInt 0 :: nil)) /\
+  rmap (enc_res enc_ndt) (ndt_duration_round_up (ex_ndt 2012 347 66149 999000000) (mk_td 300 0))
+    = Val (VTup (VInt 2012 :: VInt 347 :: VInt 66300 :: VInt 0 :: nil)) /\
+  rmap (enc_res enc_ndt) (ndt_duration_round (ex_ndt 2012 347 66150 0) (mk_td 300 0))
+    = Val (VTup (VInt 2012 :: VInt 347 :: VInt 66300 :: VInt 0 :: nil)) /\
+  rmap (enc_res enc_ndt) (ndt_duration_trunc (ex_ndt 1969 346 43932 0) (mk_td 600 0))
+    = Val (VTup (VInt 1969 :: VInt 346 :: VInt 43800 :: VInt 0 :: nil)) /\
+  rmap (enc_res enc_ndt) (ndt_duration_round_up (ex_ndt 1969 346 43932 0) (mk_td 600 0))
+    = Val (VTup (VInt 1969 :: VInt 346 :: VInt 44400 :: VInt 0 :: nil)) /\
+  ndt_duration_round (ex_ndt 2300 346 0 0) (mk_td 86400 0) = Val (inr TimestampExceedsLimit) /\
+  ndt_duration_round (ex_ndt 2012 347 0 0) (mk_td 0 0) = Val (inr DurationExceedsLimit) /\
+  ndt_duration_round (ex_ndt 2012 347 0 0) (mk_td 9223372036854775 807000000) = Val (inr DurationExceedsLimit) /\
+  rmap enc_ndt (round_subsecs ndt_ops (ex_ndt 2016 366 86399 1750500000) 0)
+    = Val (VTup (VInt 2017 :: VInt 1 :: VInt 0 :: VInt 0 :: nil)) /\
+  rmap enc_ndt (trunc_subsecs ndt_ops (ex_ndt 2016 366 86399 1750500000) 1)
+    = Val (VTup (VInt 2016 :: VInt 366 :: VInt 86399 :: VInt 1700000000 :: nil)).
+Proof. exact examples. Qed.
+Print Assumptions C17_examples.
